@@ -2,8 +2,11 @@ pub(crate) use seize::{Collector, Guard, Linked};
 
 use std::marker::PhantomData;
 use std::ops::Deref;
+#[cfg(not(flurry_verif))]
 use std::sync::atomic::{AtomicPtr, Ordering};
 use std::{fmt, ptr};
+#[cfg(flurry_verif)]
+use {crate::verif::AtomicPtr, std::sync::atomic::Ordering};
 
 pub(crate) struct Atomic<T>(AtomicPtr<Linked<T>>);
 
@@ -13,6 +16,22 @@ impl<T> Atomic<T> {
     }
 
     pub(crate) fn load<'g>(&self, ordering: Ordering, guard: &'g Guard<'_>) -> Shared<'g, T> {
+        #[cfg(flurry_verif)]
+        {
+            // a guarded load is SeqCst whatever `ordering` says; an unprotected one uses `ordering`
+            let effective = if guard.collector().is_some() {
+                Ordering::SeqCst
+            } else {
+                ordering
+            };
+            let addr = &self.0 as *const _ as usize;
+            crate::verif::event(
+                crate::verif::EV_GUARD_LOAD,
+                crate::verif::collector_id(guard),
+                addr,
+            );
+            crate::verif::atomic(addr, crate::verif::LOAD, effective, ordering);
+        }
         guard.protect(&self.0, ordering).into()
     }
 
@@ -51,6 +70,14 @@ impl<T> Atomic<T> {
                 new,
             }),
         }
+    }
+}
+
+#[cfg(flurry_verif)]
+impl<T> Atomic<T> {
+    /// untraced, unprotected read for the inspector
+    pub(crate) fn verif_raw(&self) -> *mut Linked<T> {
+        std::ops::Deref::deref(&self.0).load(Ordering::SeqCst)
     }
 }
 
@@ -149,6 +176,12 @@ pub(crate) trait RetireShared {
 
 impl RetireShared for Guard<'_> {
     unsafe fn retire_shared<T>(&self, shared: Shared<'_, T>) {
+        #[cfg(flurry_verif)]
+        crate::verif::event(
+            crate::verif::EV_RETIRE,
+            shared.ptr as usize,
+            crate::verif::collector_id(self),
+        );
         self.defer_retire(shared.ptr, seize::reclaim::boxed::<Linked<T>>);
     }
 }
